@@ -77,3 +77,26 @@ def discharge(obligations: dict, timeout_ms=10000, procs=None, use_cvc5=True, cr
                 out[k]["cvc5"] = r2
                 out[k]["time"] += t2
     return out
+
+
+def retry_unknown(obligations, res, timeout_ms, seeds=(0, 7, 42)):
+    todo = [k for k, ob in obligations.items() if not ob.expect_sat and res[k]["status"] == "unknown"]
+    if not todo:
+        return
+    items = []
+    for k in todo:
+        text = to_smt2(obligations[k])
+        for sd in seeds:
+            items.append((k, text, timeout_ms, sd))
+    ex = ProcessPoolExecutor(min(8, len(items)))
+    for k, r, t, sd in ex.map(_retry_work, items, chunksize=1):
+        res[k]["time"] += t
+        if r != "unknown" and res[k]["status"] == "unknown":
+            res[k]["status"] = r
+            res[k]["backend"] = f"z3(seed={sd},retry)"
+
+
+def _retry_work(item):
+    k, text, timeout_ms, sd = item
+    r, t, _ = _z3_check(text, timeout_ms, seed=sd)
+    return k, r, t, sd
